@@ -315,7 +315,28 @@ pub fn run_job(job: &Job, seed: u64, workers: usize, scratch: &Path, tag: &str) 
     let mut crashes = Vec::new();
     let mut batch = crate::prng::LogHash::new();
     let mut samples = Vec::new();
-    for (child, out, from, to) in children {
+    // A worker that makes no progress for too long is killed and reported
+    // like a dead worker (a hang of the code under test is a finding, a hang
+    // of the harness must not block the batch).
+    let timeout = std::env::var("VERIF_WORKER_TIMEOUT_S")
+        .ok()
+        .and_then(|s| s.parse::<u64>().ok())
+        .unwrap_or(if job.ask.thorough { 7200 } else { 600 });
+    let deadline = Instant::now() + Duration::from_secs(timeout);
+    for (mut child, out, from, to) in children {
+        loop {
+            match child.try_wait() {
+                Ok(Some(_)) => break,
+                Ok(None) => {
+                    if Instant::now() > deadline {
+                        let _ = child.kill();
+                        break;
+                    }
+                    std::thread::sleep(Duration::from_millis(20));
+                }
+                Err(_) => break,
+            }
+        }
         let output = child.wait_with_output().expect("harness: wait");
         let stderr = String::from_utf8_lossy(&output.stderr).to_string();
         if output.status.code() == Some(2) {
